@@ -5,10 +5,15 @@
   SMP exchanges with real 1536-bit arithmetic). Theorems hold for every `K : Crypto` whose modular
   exponentiation and inverse are correct (`Crypto.ArithOK`, proved for the real instance:
   `Crypto.real_arithOK`); the hash is arbitrary. `two_pow_dhQ` (g^q ≡ 1 mod p) is proved by kernel
-  evaluation. `smp_honest_run`: in an honest run, for ALL exponents and secrets, every generated proof
-  verifies and both final comparisons equal `g^(a2·b2·a3·b3·x) = g^(a2·b2·a3·b3·y)`.
-  `c11_equal_success(_v2/_v3)`: equal secrets ⇒ success on both sides (OTRv3 under the side condition
-  that no transmitted element is 1 or p−1, which the v3 range check rejects — probability ≈ 2^-1535).
+  evaluation. `smp_honest_run`: in an honest run, for ALL exponents and secrets, the ten transmitted
+  proof exponents d = r − a·c mod q are < q, every generated proof verifies provided these exponents
+  are nonzero (hypothesis `∀ d ∈ smpExponents …, 1 ≤ d`: the repaired code, like libotr, range-checks
+  1 ≤ d < q on receipt and so rejects an honest message in the probability-2^-1535 event d = 0) and
+  both final comparisons equal `g^(a2·b2·a3·b3·x) = g^(a2·b2·a3·b3·y)`.
+  `c11_equal_success(_v2/_v3)`: equal secrets and nonzero transmitted proof exponents ⇒ success on
+  both sides (OTRv3 under the further side condition that no transmitted element is 1 or p−1, which
+  the v3 range check rejects — probability ≈ 2^-1535). `isExponent_subModQ_iff`: an honest exponent
+  passes the range check iff it is nonzero.
   `c11_unequal_fail`: with p and q prime (hypotheses hp, hqp: not provable with the tools present) and
   the four blinding exponents nonzero mod q, different secrets x ≠ y < q ⇒ failure on both sides.
   Binding of the secret to both fingerprints and the SSID (what defeats a relay): the hashed secret is
@@ -30,6 +35,10 @@ theorem zkp_complete : type_of% @Otr.zkp_complete := @Otr.zkp_complete
 theorem zkp2_complete : type_of% @Otr.zkp2_complete := @Otr.zkp2_complete
 
 theorem zkp4_complete : type_of% @Otr.zkp4_complete := @Otr.zkp4_complete
+
+theorem isExponent_iff : type_of% @Otr.isExponent_iff := @Otr.isExponent_iff
+
+theorem isExponent_subModQ_iff : type_of% @Otr.isExponent_subModQ_iff := @Otr.isExponent_subModQ_iff
 
 theorem smp_honest_run : type_of% @Otr.smp_honest_run := @Otr.smp_honest_run
 
